@@ -34,7 +34,7 @@ class JsonSchemaParser:
                  force_forward_ref: bool = False,
                  ):
 
-        if not isinstance(json_schema, dict):
+        if not isinstance(json_schema, (dict, bool)):     # a document is an object or one of the boolean schemas
             raise TypeError(f'Invalid json schema: {json_schema}')
         if force_forward_ref:
             if refs is None:
@@ -170,6 +170,10 @@ class JsonSchemaParser:
                    name: str = None,
                    description: str = None,
                    with_constraints: bool = True):
+        if isinstance(schema, bool):
+            # the boolean schemas: true accepts every value, false none
+            return self.default_type if schema else LogicalType.not_of(Any)
+
         ref = schema.get('$ref')
         type = schema.get('type')
         any_of = schema.get('anyOf')
@@ -182,6 +186,10 @@ class JsonSchemaParser:
 
         if ref:
             return ForwardRef(self.get_def_name(ref))
+
+        if isinstance(enum, list) and not enum:
+            # an empty enum admits nothing (and Any would drop the constraint)
+            return LogicalType.not_of(Any)
 
         if isinstance(type, (list, tuple)):
             # a list of types: the same schema with any one of them
@@ -333,7 +341,8 @@ class JsonSchemaParser:
         )
 
         for key, prop in properties.items():
-            prop = prop or {}
+            # a boolean property schema: true is {}, false forbids the member
+            prop = {'not': {}} if prop is False else {} if prop is True else prop or {}
             field_required = key in required if required else False
             field_dependencies = dependent_required.get(key) if dependent_required else None
             ref = prop.get('$ref')
@@ -415,7 +424,8 @@ class JsonSchemaParser:
             elif items:
                 addition = self.parse_type(items, with_constraints=True)
 
-        elif items:
+        elif items or items is False:
+            # items: false without prefixItems: every item has to meet the false schema, so there is none
             items_type = self.parse_type(items, with_constraints=True)
             args = [items_type]
 
